@@ -15,6 +15,7 @@ import (
 	"github.com/dapr/kit/concurrency/dir"
 
 	"verif/harness/common"
+	"verif/harness/spiffebody"
 	"verif/harness/stublog"
 	"verif/simos"
 	"verif/simrt"
@@ -26,6 +27,8 @@ var fileSets = []map[string][]byte{
 	{"a": []byte("22"), "b": []byte("333")},
 	{"b": []byte("4"), "c": []byte("55555")},
 	{"a": []byte("6"), "b": []byte("7"), "c": []byte("8"), "d": []byte("9")},
+	{"a": {}, "e": []byte("x")}, // a file may be empty: it is still part of the set
+	{"e": nil},
 }
 
 func render(m map[string][]byte) string {
@@ -279,5 +282,13 @@ func body(s *simrt.Sim, tier string) {
 
 func TestWorker(t *testing.T) {
 	_ = errors.New
-	common.Main(t, common.Harness{ID: "C18", NoDelays: true, Body: body})
+	common.Main(t, common.Harness{ID: "C18", NoDelays: true, SeedCrypto: true, Body: func(s *simrt.Sim, tier string) {
+		// one run in eight drives dir.Write through its caller in the kit, crypto/spiffe (identity files
+		// rotated by the SPIFFE loop, with injected disk errors): same oracles as C19, files always on
+		if s.Choose(8, "via-spiffe") == 0 {
+			spiffebody.Body(s, tier, spiffebody.Options{FilesAlways: true})
+			return
+		}
+		body(s, tier)
+	}})
 }
